@@ -419,3 +419,52 @@ def bqmFromSer (d : BQMDoc) : List PV × BQMIdx :=
   ((match jsonRT d.labels with | .list l => deserVarList l | _ => []), fromVectors d.vectors)
 
 end Pack
+
+namespace Pack
+
+/-! ### the bytes payload (`use_bytes=True`): `arr.tobytes(order='C')` and `np.frombuffer` -/
+
+/-- an integer-like dtype: item size in bytes and signedness (`bool`, `int8…int64`, `uint8…uint64`) -/
+structure IntType where
+  size : Nat
+  signed : Bool
+
+/-- little-endian bytes of a natural number, `n` of them -/
+def toBytesLE : Nat → Nat → List Nat
+  | 0, _ => []
+  | n + 1, v => v % 256 :: toBytesLE n (v / 256)
+
+def fromBytesLE (bs : List Nat) : Nat := bs.foldr (fun b acc => b + 256 * acc) 0
+
+/-- one item as stored: two's complement, little endian -/
+def encodeInt (t : IntType) (z : Int) : List Nat := toBytesLE t.size (z % (2 : Int) ^ (8 * t.size)).toNat
+
+/-- one item as read back -/
+def decodeInt (t : IntType) (bs : List Nat) : Int :=
+  let u : Int := fromBytesLE bs
+  if t.signed ∧ (2 : Int) ^ (8 * t.size) ≤ 2 * u then u - (2 : Int) ^ (8 * t.size) else u
+
+/-- `arr.tobytes()` of the flat C-order data -/
+def tobytesInt (t : IntType) (data : List Int) : List Nat := data.flatMap (encodeInt t)
+
+/-- `np.frombuffer(buf, dtype)` for `count` items -/
+def frombufferInt (t : IntType) (bytes : List Nat) (count : Nat) : List Int := (chunksN t.size count bytes).map (decodeInt t)
+
+/-- the values the dtype can hold -/
+def IntType.holds (t : IntType) (z : Int) : Prop :=
+  if t.signed then -((2 : Int) ^ (8 * t.size)) ≤ 2 * z ∧ 2 * z < (2 : Int) ^ (8 * t.size) else 0 ≤ z ∧ z < (2 : Int) ^ (8 * t.size)
+
+/-- floating-point items are opaque 4/8-byte payloads: IEEE encoding and decoding are parameters of the
+    model with the stated contract (`rt`) -/
+structure FloatCodec where
+  size : Nat
+  enc : Rat → List Nat
+  dec : List Nat → Rat
+  representable : Rat → Prop
+  len : ∀ q, (enc q).length = size
+  rt : ∀ q, representable q → dec (enc q) = q
+
+def tobytesFloat (c : FloatCodec) (data : List Rat) : List Nat := data.flatMap c.enc
+def frombufferFloat (c : FloatCodec) (bytes : List Nat) (count : Nat) : List Rat := (chunksN c.size count bytes).map c.dec
+
+end Pack
